@@ -20,7 +20,7 @@ PS == {"a/x", "ab/y", "a/b/z", "f"}
 SS == {"a", "ab", "a/b", "a+ab"}
 ConeS == [s \in SS |-> CASE s = "a" -> {"a/x", "a/b/z"} [] s = "ab" -> {"ab/y"} [] s = "a/b" -> {"a/b/z"} [] s = "a+ab" -> {"a/x", "a/b/z", "ab/y"}]
 NoCone == [s \in {} |-> {}]
-OpsMain == {"reset-hard", "checkout-force", "checkout", "reset-merge", "reset-keep", "add", "add-all", "remove", "move", "clean", "commit", "status"}
+OpsMain == {"reset-hard", "checkout-force", "checkout-force-create", "checkout", "checkout-twin", "checkout-create", "reset-merge", "reset-keep", "add", "add-all", "remove", "move", "clean", "commit", "status"}
 OpsNoMove == OpsMain \ {"move"}
 OpsSparse == {"sparse"}
 =============================================================================
